@@ -3,10 +3,16 @@
    (worterbuch.rs:1220-1378).  Proved here: the publish streams of the client are gone after any
    non-crashing session end; the burial and the last will are ordinary pdelete / forced set
    requests issued under the client's own id (so C01/C04/C08 apply to each of them); the
-   registrations used are decoded from the values stored last.  PARTIAL: the closed form
-   "state after = lastwill . bury . drop_sys (state before)" and the removal of subscriptions and
-   locks are validated by the correspondence and the session-end oracle, not yet proved in Coq. *)
-From WB Require Import Base.Str Base.Json Model.Key Model.Consts Model.Store Model.Entry Model.Core Proofs.C07Proof.
+   registrations used are decoded from the values stored last; and (Proofs/SessionEnd.v) a session
+   end IS a run of ordinary requests -- [end_ops], each once, in the order of the code -- from the state
+   [prep] in which the client's publish streams, locks and client-list entry are gone, so that its
+   effect on the data is a trace of the map specification (C01), its events and ls notifications are
+   those of these requests (C03, C05), the guard of C08 applies to every burial and last-will write
+   because they run under the client's own id, and the registration tables lose exactly the
+   client's entries.  Known findings F24/F27: a subscription made under a transaction id that was
+   still subscribed stays in the subscriber tree (the tables, which the theorems speak about, forget it). *)
+From WB Require Import Base.Str Base.Json Model.Key Model.Consts Model.Store Model.Entry Model.Core Spec.MapSpec
+  Proofs.CoreFacts Proofs.LenFacts Proofs.C01Proof Proofs.C07Proof Proofs.LockHistory Proofs.SessionEnd.
 
 Theorem C07_publish_streams_die_with_session :
   forall s c, o_res (snd (do_disconnected s c)) <> RCrash ->
@@ -35,6 +41,50 @@ Theorem C07_last_will_touches_no_table :
 Proof. exact insert_tables. Qed.
 Print Assumptions C07_last_will_touches_no_table.
 
+(* a session end that does not crash is the run of [end_ops s c] from [prep s c]: same final state, same
+   events, same ls notifications; and that run refines the map specification from the map before *)
+Theorem C07_session_end_is_a_run_of_requests :
+  forall s c, Inv s -> LenInv s -> N.eqb c 0 = false -> is_crash (snd (do_disconnected s c)) = false ->
+    spec_trace (abs s) (end_ops s c) (trace (prep s c) (end_ops s c)) /\
+    fst (do_disconnected s c) = final (prep s c) (end_ops s c) /\
+    o_events (snd (do_disconnected s c)) = evs_of (trace (prep s c) (end_ops s c)) /\
+    o_ls (snd (do_disconnected s c)) = lss_of (trace (prep s c) (end_ops s c)).
+Proof. exact session_end_refines. Qed.
+Print Assumptions C07_session_end_is_a_run_of_requests.
+
+(* the requests, spelled out: the order is the one of the property (clean-up of the client list entry,
+   subscriptions, own $SYS subtree; grave goods; last will with force = true, i.e. over CAS protection) *)
+Theorem C07_the_requests_of_a_session_end :
+  forall s c, end_ops s c =
+    [OSet 0 (topic [s_SYS; s_clients])
+          (jnum (N.of_nat (length (filter (fun x => negb (N.eqb x c)) (clients s))))) true]
+    ++ map (fun id => OUnsubscribe (fst id) (snd id)) (ids_of c (subscriptions s))
+    ++ map (fun id => OUnsubscribeLs (fst id) (snd id)) (ids_of c (ls_subscriptions s))
+    ++ [OPDelete 0 (topic [s_SYS; s_clients; client_str c; s_hash])]
+    ++ map (fun g => OPDelete c g) (gg_of s c)
+    ++ map (fun kv => OSet c (fst kv) (snd kv) true) (lw_of s c).
+Proof. reflexivity. Qed.
+Print Assumptions C07_the_requests_of_a_session_end.
+
+(* the registration tables afterwards: exactly the client's entries are gone, everybody else's are there *)
+Theorem C07_session_end_tables :
+  forall s c, N.eqb c 0 = false -> is_crash (snd (do_disconnected s c)) = false ->
+    let s' := fst (do_disconnected s c) in
+    (forall id v, In (id, v) (subscriptions s') <-> In (id, v) (subscriptions s) /\ fst id <> c) /\
+    (forall id v, In (id, v) (ls_subscriptions s') <-> In (id, v) (ls_subscriptions s) /\ fst id <> c) /\
+    (forall id k, In (id, k) (spub_keys s') <-> In (id, k) (spub_keys s) /\ fst id <> c) /\
+    locked_keys s' = assoc_del N.eqb c (locked_keys s) /\
+    clients s' = filter (fun x => negb (N.eqb x c)) (clients s).
+Proof. exact session_end_tables. Qed.
+Print Assumptions C07_session_end_tables.
+
+(* and the locks: in every reachable state the ending client leaves the line of every key, nobody else moves *)
+Theorem C07_session_end_lines :
+  forall ops c q, N.eqb c 0 = false ->
+    cline (fst (step (final init ops) (ODisconnected c))) q = notc c (cline (final init ops) q).
+Proof. exact session_end_lines. Qed.
+Print Assumptions C07_session_end_lines.
+
 (* non-vacuity and the shape of a session end: grave goods buried, last will set over a CAS value,
    own $SYS entries gone, the other client's registration untouched *)
 Definition gg1 := topic [s_SYS; s_clients; client_str 1; s_graveGoods].
@@ -52,3 +102,15 @@ Example C07_nonvacuous :
   do_get s [107] = RValue JNull /\ do_get s gg1 = RErr E_NoSuchValue /\
   do_get s gg2 = RValue (JArr [JStr [107]]).
 Proof. vm_compute. repeat split. Qed.
+
+Example C07_requests_nonvacuous :
+  let ops := [OConnected 1; OConnected 2;
+              OSet 1 gg1 (JArr [JStr [103;47;35]]) false;
+              OSet 1 lw1 (JArr [JArr [JStr [119]; JNum [49]]]) false;
+              OSubscribe 1 4 [120] false true; OSubscribeLs 1 5 None; OPSubscribe 2 4 [35] false true] in
+  let s := final init ops in
+  map (fun o => match o with OSet c _ _ f => (0, c, if f then 1 else 0) | OUnsubscribe c t => (1, c, t)
+                           | OUnsubscribeLs c t => (2, c, t) | OPDelete c _ => (3, c, 0) | _ => (9, 0, 0) end)
+      (end_ops s 1) = [(0, 0, 1); (1, 1, 4); (2, 1, 5); (3, 0, 0); (3, 1, 0); (0, 1, 1)] /\
+  is_crash (snd (do_disconnected s 1)) = false.
+Proof. vm_compute. split; reflexivity. Qed.
